@@ -88,6 +88,7 @@ def parseLit (ts : List String) : Option Lit :=
   | ["l", n] => n.toInt?.map Lit.long
   | ["L", n] => n.toInt?.map Lit.nlong
   | ["UL", n] => n.toNat?.map Lit.nulong
+  | ["Q", n] => n.toNat?.map Lit.ulong
   | ["d", m, e] => (parseDy m e).map Lit.dbl
   | ["f", m, e] => (parseDy m e).map Lit.flt
   | ["b", x] => some (Lit.bool (x == "1"))
@@ -120,6 +121,7 @@ def parseOp (ts : List String) : Option Op :=
   | ["setv", ps, qs] => do pure (.setV (← parsePathP ps) (← parsePathP qs))
   | ["app", ps, qs] => do pure (.app (← parsePathP ps) (← parsePathP qs))
   | "appl" :: ps :: lit => do pure (.appLit (← parsePathP ps) (← parseLit lit))
+  | ["setsub", ps, n] => do pure (.setSub (← parsePathP ps) (← n.toNat?))
   | ["resize", ps, n] => do pure (.resize (← parsePathP ps) (← n.toNat?))
   | ["remat", ps, i, n] => do pure (.removeAt (← parsePathP ps) (← i.toInt?) (← n.toInt?))
   | ["rem", ps, k] => do pure (.removeKey (← parsePathP ps) (← unhex k))
@@ -141,7 +143,7 @@ def parseOp (ts : List String) : Option Op :=
   | _ => none
 
 def isMutName (s : String) : Bool :=
-  ["set", "setv", "app", "appl", "resize", "remat", "rem", "clear", "ext", "clone", "copy", "drop", "ctor"].contains s
+  ["set", "setv", "setsub", "app", "appl", "resize", "remat", "rem", "clear", "ext", "clone", "copy", "drop", "ctor"].contains s
 
 def cgetP (σ : State) (p : Nat × List Step) : Except Err V := cget σ { root := p.1, steps := p.2 }
 
@@ -154,7 +156,9 @@ def convStr (σ : State) (v : V) : String :=
   let s := match strOf v with
     | some s => hex s
     | none => outOf ((toStr (travFuel σ.heap) σ.heap v).map hex)
-  s!"i={i} d={d} b={b01 (toBool v)} s={s}"
+  let l := match toLong v with | some i => s!"{i}" | none => "u"
+  let ul := match toULong v with | some u => s!"{u}" | none => "u"
+  s!"i={i} L={l} Q={ul} d={d} b={b01 (toBool v)} s={s}"
 
 def step (σ : State) (ts0 : List String) : State × String :=
   let (guard, ts) := match ts0 with
